@@ -298,6 +298,50 @@ func buildMLUC(t *tape.Tape, big bool) ([]byte, []MLUCRecord, []string, string) 
 		PutBE(w.b, o+4, 4, uint64(rc.Len))
 		PutBE(w.b, o+8, 4, uint64(rc.Off))
 	}
+	// "any placement of the strings": in a sixth of the tags one or two records are
+	// re-pointed at a window that lies inside the tag header / record table (or is
+	// empty, at any offset up to the end of the tag). The expected text is the
+	// UTF-16BE decoding of exactly those bytes; windows containing surrogate code
+	// units are reduced to the empty string so that the expectation does not
+	// depend on how lone surrogates are replaced.
+	if t.Chance(1, 6) {
+		k := 1 + t.Intn(2)
+		for j := 0; j < k; j++ {
+			i := r.Intn(nrec)
+			off := 2 * r.Intn((16+12*nrec)/2)
+			ln := 2 * r.Intn(1+(16+12*nrec-off)/2)
+			if r.Intn(3) == 0 {
+				off, ln = r.Intn(len(w.b)+1), 0
+			}
+			o := recOff + 12*i
+			PutBE(w.b, o+4, 4, uint64(ln))
+			PutBE(w.b, o+8, 4, uint64(off))
+			// the window may cover the fields just written: decode after patching
+			recs[i].Off, recs[i].Len = uint32(off), uint32(ln)
+		}
+		for i := range recs {
+			win := w.b[recs[i].Off : recs[i].Off+recs[i].Len]
+			if int(recs[i].Off) >= 16+12*nrec+gap && recs[i].Len > 0 {
+				continue // ordinary string behind the table: text already known
+			}
+			u := make([]uint16, len(win)/2)
+			bad := false
+			for q := range u {
+				u[q] = uint16(win[2*q])<<8 | uint16(win[2*q+1])
+				if u[q] >= 0xD800 && u[q] <= 0xDFFF {
+					bad = true
+				}
+			}
+			if bad {
+				o := recOff + 12*i
+				PutBE(w.b, o+4, 4, 0)
+				recs[i].Len = 0
+				u = nil
+			}
+			recs[i].Text = string(utf16.Decode(u))
+		}
+		layout += "+windows-inside-table"
+	}
 	var acc []string
 	for _, rc := range recs {
 		if rc.Lang == [2]byte{'e', 'n'} {
@@ -515,7 +559,13 @@ func DrawICC(t *tape.Tape, o ICCOpts) *ICCProfile {
 // common in vendor profiles). Used as an amplification workload: the input is
 // 168+12*nrec+strBytes bytes, yet a reader that materialises every record
 // handles nrec*strBytes bytes.
-func BuildMLUCFanIn(nrec, strBytes int) *ICCProfile {
+func BuildMLUCFanIn(nrec, strBytes int) *ICCProfile { return BuildMLUCFanInFill(nrec, strBytes, 0) }
+
+// BuildMLUCFanInFill is BuildMLUCFanIn with a chosen content of the shared
+// block: 0 letters, 1 all zero bytes, 2 all 0xFF, 3 pseudo-random (work that
+// depends on the content - trimming, scanning for terminators - is amplified
+// differently by each).
+func BuildMLUCFanInFill(nrec, strBytes, fill int) *ICCProfile {
 	hdr := DrawICCHeader(tape.New(7, nil))
 	w := &builder{}
 	w.bytes(hdr)
@@ -536,14 +586,30 @@ func BuildMLUCFanIn(nrec, strBytes int) *ICCProfile {
 		w.u32be(uint32(strBytes))
 		w.u32be(uint32(16 + 12*nrec))
 	}
+	rnd := tape.NewRand(uint64(nrec*31 + strBytes))
 	for i := 0; i < strBytes; i += 2 {
-		w.u8(0)
-		w.u8(byte('A' + (i/2)%26))
+		switch fill {
+		case 1:
+			w.u8(0)
+			w.u8(0)
+		case 2:
+			w.u8(0xFF)
+			w.u8(0xFF)
+		case 3:
+			w.u8(byte(rnd.Intn(0xD8))) // stays clear of surrogates
+			w.u8(byte(rnd.Intn(256)))
+		default:
+			w.u8(0)
+			w.u8(byte('A' + (i/2)%26))
+		}
+	}
+	if len(w.b) > 144+tagSize {
+		w.b = w.b[:144+tagSize]
 	}
 	PutBE(w.b, 0, 4, uint64(len(w.b)))
 	return &ICCProfile{Bytes: w.b, NTags: 1, HasDesc: true, DescKind: "mluc", DescOff: 144, DescSize: tagSize,
 		Fields:  []Field{{Name: "mluc.recordCount", Off: 152, Width: 4, Kind: "count"}},
-		Summary: fmt.Sprintf("ICC %d bytes, mluc fan-in: %d records sharing one %d-byte string", len(w.b), nrec, strBytes)}
+		Summary: fmt.Sprintf("ICC %d bytes, mluc fan-in: %d records sharing one %d-byte string (fill %d)", len(w.b), nrec, strBytes, fill)}
 }
 
 // BuildTagFanIn renders a syntactically valid profile with ntags distinct tag
